@@ -72,15 +72,25 @@ def _alarm(signum, frm):
     raise Hang('wall-clock limit exceeded')
 
 
+_DEADLINE_ACTIVE = [False]
+
+
 @contextlib.contextmanager
 def deadline(seconds):
+    """wall-clock limit for a call into pamqp (main thread only; re-entrant: an inner deadline inside an
+    active one is a no-op, the outer limit applies)"""
+    if _DEADLINE_ACTIVE[0] or threading.current_thread() is not threading.main_thread():
+        yield
+        return
     old = signal.signal(signal.SIGALRM, _alarm)
     signal.setitimer(signal.ITIMER_REAL, seconds)
+    _DEADLINE_ACTIVE[0] = True
     try:
         yield
     finally:
         signal.setitimer(signal.ITIMER_REAL, 0)
         signal.signal(signal.SIGALRM, old)
+        _DEADLINE_ACTIVE[0] = False
 
 
 def outcome(fn, *args, show=None, limit=3.0):
